@@ -9,7 +9,7 @@ func init() {
 			"that crossing a tick adds the signed net liquidity of exactly that tick (negated for zero-for-one) and moves the current tick to next−1 / next; that ticks are removed only when reported empty and the pool is uninitialised only when no position remains; and that the low-level writers of ticks, positions and pool price have only the listed callers.",
 		NotCovered:  []string{"the invariant itself over histories", "price/tick agreement as numbers (C14)"},
 		Assumptions: []string{"KV store semantics"},
-		MinObl:      57,
+		MinObl:      59,
 		Run:         runC07,
 	})
 }
@@ -78,6 +78,8 @@ func runC07(c *rules.Ctx) {
 	c.FailsWhen(K+"uninitializePool", "cl.Keeper.HasAnyPositionForPool(_, ctx, poolId)#0 | cl.Keeper.HasAnyPositionForPool(...)#0", "a pool with positions is never uninitialised", rules.GuardOpt{})
 	// ---- writers
 	c.WhoMayCall(K+"SetTickInfo", []string{"cl.Keeper.initOrUpdateTick", "cl.Keeper.crossTick", "cl.Keeper.InitGenesis", "cl.Keeper.MigrateSpreadFactorAccumulatorToScalingFactor", "cl.Keeper.MigrateIncentivesAccumulatorToScalingFactor", "cl.Keeper.initOrUpdateTickUptimeTrackers"}, "tick records are written only by the listed functions")
+	c.CallArg(W, "cl.Keeper.RemoveTickInfo", 2, "cl.Keeper.GetPosition(k,ctx,positionId)#0.PoolId", "an emptied tick is removed from the position's own pool")
+	c.Returns(K+"HasAnyPositionForPool", 0, "osmoutils.HasAnyAtPrefix(sdk.Context.KVStore(ctx,k.storeKey), cltypes.KeyPoolPosition(poolId), _)#0", "whether a pool still has positions is decided by a scan of that pool's own key prefix only", "")
 	c.ReachedWhen(W, "cl.Keeper.RemoveTickInfo[3=has(cl.Keeper.GetPosition(k,ctx,positionId)#0.LowerTick)]", "cl.Keeper.UpdatePosition(...)#0.LowerTickIsEmpty", "an emptied lower tick is always removed (whatever happened to the upper one)")
 	c.ReachedWhen(W, "cl.Keeper.RemoveTickInfo[3=has(cl.Keeper.GetPosition(k,ctx,positionId)#0.UpperTick)]", "cl.Keeper.UpdatePosition(...)#0.UpperTickIsEmpty", "an emptied upper tick is always removed (whatever happened to the lower one)")
 	// ---- first position: the pool's tick is the price's tick rounded *down* to the spacing (Euclidean, also below zero)
